@@ -52,6 +52,25 @@ HARMLESS = [
     ('C14', 'sc3/seq/event.py', "        if 'db' in self:\n            return bi.dbamp(self['db'])\n        elif 'velocity' in self:\n            return self._amp_from_velocity()\n        else:\n            return self.default_values['amp']",
      "        if 'db' in self:\n            return bi.dbamp(self['db'])\n        if 'velocity' in self:\n            return self._amp_from_velocity()\n        return self.default_values['amp']", 'flattened elif chain in amp'),
     ('C10', 'sc3/base/stream.py', "        self._rand_seed = x\n        self._rgen = random.Random(x)", "        self._rgen = random.Random(x)\n        self._rand_seed = x", 'reordered stores in rand_seed setter'),
+    ('C02', 'sc3/synth/ugen.py', "            frw.write_pascal_str(file, self.name)\n            frw.write_i8(file, self._rate_number())\n            frw.write_i32(file, self._num_inputs())\n            frw.write_i32(file, self._num_outputs())",
+     "            rate_number = self._rate_number()\n            n_in = self._num_inputs()\n            n_out = self._num_outputs()\n            frw.write_pascal_str(file, self.name)\n            frw.write_i8(file, rate_number)\n            frw.write_i32(file, n_in)\n            frw.write_i32(file, n_out)",
+     'header values computed before they are written'),
+    ('C01', 'sc3/synth/ugen.py', "            self._synthdef._remove_ugen(b)\n            replacement = Sum3.new(b.inputs[0], b.inputs[1], a)",
+     "            replacement = Sum3.new(b.inputs[0], b.inputs[1], a)\n            self._synthdef._remove_ugen(b)", 'replacement made before the absorbed unit is removed'),
+    ('C03', 'sc3/synth/ugen.py', "                new_args[j] = (\n                    item[i % len(item)] if isinstance(item, list) else item)",
+     "                if isinstance(item, list):\n                    new_args[j] = item[i % len(item)]\n                else:\n                    new_args[j] = item", 'conditional expression unfolded in _multi_new'),
+    ('C11', 'sc3/base/stream.py', "            if self.test:\n                tmp_wtt = self._waiting_threads\n                self._waiting_threads = []\n                for tt in tmp_wtt:\n                    tt._clock.sched(0, tt)",
+     "            if self.test:\n                waiting, self._waiting_threads = self._waiting_threads, []\n                for tt in waiting:\n                    tt._clock.sched(0, tt)", 'tuple swap in Condition.signal'),
+    ('C17', 'sc3/synth/node.py', "        self.group = target.group\n        self.server.addr.send_msg(\n            '/n_before', self.node_id, target.node_id)  # 18",
+     "        target_id = target.node_id\n        self.group = target.group\n        self.server.addr.send_msg('/n_before', self.node_id, target_id)  # 18", 'local for the target id in move_before'),
+    ('C06', 'sc3/base/_oscinterface.py', "                elif isinstance(arg[0], str):\n                    msg_builder.add_arg(\n                        self._build_msg(send_time, arg).dgram)",
+     "                elif isinstance(arg[0], str):\n                    nested = self._build_msg(send_time, arg)\n                    msg_builder.add_arg(nested.dgram)", 'local for the nested message in _build_msg'),
+    ('C16', 'sc3/synth/_engine.py', "            while i <= self.top and self._array[i - self.addr_offset] is None:\n                i += 1",
+     "            offset = self.addr_offset\n            while i <= self.top and self._array[i - offset] is None:\n                i += 1", 'local for the offset in _find_next'),
+    ('C19', 'sc3/synth/envelope.py', "            contents.append(type(self)._shape_number(curves[i % len(curves)]))\n            contents.append(type(self)._curve_value(curves[i % len(curves)]))\n\n        self.__envgen_format",
+     "            segcurve = curves[i % len(curves)]\n            shape = type(self)._shape_number(segcurve)\n            curvature = type(self)._curve_value(segcurve)\n            contents.append(shape)\n            contents.append(curvature)\n\n        self.__envgen_format", 'locals for shape and curvature in _envgen_format'),
+    ('C13', 'sc3/seq/patterns/listpatterns.py', "            inval = yield from stm.embed(lst[(i + offset) % size], inval)",
+     "            item = lst[(i + offset) % size]\n            inval = yield from stm.embed(item, inval)", 'local for the item in Pser'),
 ]
 
 BREAKING = [
@@ -87,6 +106,21 @@ BREAKING = [
     ('C10', 'sc3/base/stream.py', "        self._rand_seed = x\n        self._rgen = random.Random(x)", "        self._rand_seed = x\n        self._rgen = random.Random(hash(x))", 'generator seeded with hash(seed)'),
     ('C08', 'sc3/base/clock.py', "                    sched_secs = self.beats2secs(qpeek[0])\n                    self._sched_cond.wait(\n                        sched_secs - _libsc3.main.elapsed_time())",
      "                    if elapsed_beats == 0:\n                        sched_secs = self.beats2secs(qpeek[0])\n                    self._sched_cond.wait(\n                        sched_secs - _libsc3.main.elapsed_time())", 'TempoClock deadline computed once'),
+    ('C02', 'sc3/synth/ugen.py', "            frw.write_i32(file, self._num_inputs())\n            frw.write_i32(file, self._num_outputs())", "            frw.write_i32(file, self._num_outputs())\n            frw.write_i32(file, self._num_inputs())", 'input and output counts swapped in the unit header'),
+    ('C02', 'sc3/synth/ugen.py', "        for ugen in reversed(descendants):\n            ugen._remove_antecedent(self)\n        out_stack.append(self)", "        out_stack.append(self)\n        for ugen in reversed(descendants):\n            ugen._remove_antecedent(self)", 'unit appended before its descendants are released'),
+    ('C02', 'sc3/synth/synthdef.py', "            self._constants[value] = len(self._constants)", "            self._constants[value] = len(self._constants) + 1", 'constant slot off by one'),
+    ('C01', 'sc3/synth/ugen.py', "            replacement = BinaryOpUGen.new('-', a, b.inputs[0])", "            replacement = BinaryOpUGen.new('+', a, b.inputs[0])", 'a + neg(c) rewritten to a + c'),
+    ('C01', 'sc3/synth/ugen.py', "                    if self._synthdef._children[input._synth_index] is input:\n                        input._optimize_graph()", "                    input._optimize_graph()", 'DCE re-optimises a replaced input'),
+    ('C03', 'sc3/synth/ugen.py', "                    item[i % len(item)] if isinstance(item, list) else item)", "                    item[min(i, len(item) - 1)] if isinstance(item, list) else item)", 'expansion clips instead of wrapping'),
+    ('C03', 'sc3/synth/ugen.py', "            elif isinstance(item, list):\n                lst[i] = cls._replace_zeroes_with_silence(item)", "            elif isinstance(item, list):\n                cls._replace_zeroes_with_silence(item)", 'nested zero replacement result dropped'),
+    ('C11', 'sc3/base/stream.py', "        self._value = inval\n        self.condition.signal()", "        self.condition.signal()\n        self._value = inval", 'FlowVar signals before binding'),
+    ('C17', 'sc3/synth/node.py', "            '/n_before', self.node_id, target.node_id)  # 18", "            '/n_before', target.node_id, self.node_id)  # 18", 'n_before ids swapped'),
+    ('C06', 'sc3/base/_oscinterface.py', "                    msg_builder.add_arg(\n                        self._build_bundle(send_time, arg).dgram)", "                    msg_builder.add_arg(\n                        self._build_bundle(0.0, arg).dgram)", 'nested bundle encoded at time zero'),
+    ('C07', 'sc3/base/_oscinterface.py', "        self._scoreq.add(bndl[0], type(self)._Entry(bndl, msg))", "        self._scoreq.add(send_time, type(self)._Entry(bndl, msg))", 'score entry queued at the send time'),
+    ('C16', 'sc3/synth/_engine.py', "        if i - self.addr_offset < self.size:\n            return self._array[i - self.addr_offset]", "        if i < self.size:\n            return self._array[i - self.addr_offset]", '_find_next bound without the offset (the original defect)'),
+    ('C19', 'sc3/synth/envelope.py', "            contents.append(levels[i + 1])\n            contents.append(times[i])\n            contents.append(type(self)._shape_number(curves[i % len(curves)]))", "            contents.append(levels[i])\n            contents.append(times[i])\n            contents.append(type(self)._shape_number(curves[i % len(curves)]))", 'segment target level off by one'),
+    ('C13', 'sc3/seq/patterns/filterpatterns.py', "                    inval = yield local_sum - sum\n                    return inval", "                    inval = yield value\n                    return inval", 'Pconst yields the last value unclipped'),
+    ('C18', 'sc3/base/_osclib.py', "    total_size = size + (-size % _BLOB_DGRAM_PAD)", "    total_size = size + (size % _BLOB_DGRAM_PAD)", 'blob padding computed with the wrong sign'),
 ]
 
 
